@@ -1,2 +1,72 @@
+"""Engine X: explicit panic sites on cache-operation paths (C16-R2)."""
+from .facts import callee_name
+from .expr import Expr, show, calls_in, strip_casts, walk, field_path
+from . import names as N
+
+PANICKY = ('core::option::Option::unwrap', 'core::option::Option::expect', 'core::result::Result::unwrap', 'core::result::Result::expect',
+           'core::result::Result::unwrap_err', 'core::result::Result::expect_err', 'core::ops::index::Index::index', 'core::ops::index::IndexMut::index_mut',
+           'core::slice::<impl [T]>::swap', 'alloc::collections::vec_deque::VecDeque::swap', 'alloc::vec::Vec::remove', 'alloc::vec::Vec::swap_remove',
+           'alloc::vec::Vec::insert', 'alloc::collections::vec_deque::VecDeque::insert')
+PANIC_FNS = ('core::panicking::', 'std::rt::begin_panic', 'core::option::expect_failed', 'core::result::unwrap_failed')
+ASSERT_KINDS = ('BoundsCheck', 'DivisionByZero', 'RemainderByZero')
+
+
+def _classify_site(ex, cn, t):
+    """('environment', reason) | ('guarded', reason) | ('data', description)"""
+    a0 = ex.operand(t['args'][0]) if t['args'] else None
+    if cn.startswith('core::result::Result::') and a0 is not None:
+        inner = strip_casts(a0)
+        if inner[0] == 'call' and inner[1] == 'std::time::SystemTime::duration_since':
+            args = inner[2]
+            if len(args) == 2 and args[0][0] == 'call' and args[0][1] == 'std::time::SystemTime::now' and args[1][0] == 'static' and args[1][1].endswith('UNIX_EPOCH'):
+                return 'environment', 'SystemTime::now().duration_since(UNIX_EPOCH): fails only if the system clock is before 1970'
+    return 'data', show(a0) if a0 is not None else cn
+
+
 def check_panic_sites(run, ctx):
-    pass
+    crates = [ctx.core, ctx.fx_sync, ctx.fx_async]
+    n = 0
+    env = 0
+    bodies = 0
+    for crate in crates:
+        for body in crate.bodies.values():
+            role = ctx.role(body)
+            if crate is not ctx.core:
+                # generated code only; the user body closure / inner future is the user's
+                if role is None or role.endswith(':closure'):
+                    continue
+            if body.name.startswith('<') and ' as core::' in body.name:
+                continue  # derive-generated std trait impls (unreachable!() in derived PartialEq etc.)
+            bodies += 1
+            ex = None
+            for bi, bl in enumerate(body.blocks):
+                if bl['cleanup']:
+                    continue
+                t = bl['term']
+                site = None
+                if t['k'] == 'assert' and t['msg'] in ASSERT_KINDS:
+                    site = ('assert:' + t['msg'], None)
+                elif t['k'] == 'call':
+                    cn = callee_name(t)
+                    if cn in PANICKY or cn.startswith(PANIC_FNS):
+                        site = (cn, t)
+                if site is None:
+                    continue
+                n += 1
+                ex = ex or Expr(body)
+                label = ctx.label(body)
+                if site[1] is None:
+                    run.bad('C16-R2', '%s/%s' % (label, site[0]), 'a %s check that can fail at run time sits on a cache path in %s (%s)' % (t['msg'], body.name, t.get('span')),
+                            site='%s (%s)' % (body.name, t.get('span')), oracle='no unguarded data-dependent panic site on cache-operation paths')
+                    continue
+                kind, why = _classify_site(ex, site[0], site[1])
+                short = site[0].rsplit('::', 1)[-1]
+                if kind == 'environment':
+                    env += 1
+                    run.ok('C16-R2', '%s/%s/environment/bb%d' % (label, short, bi), why)
+                else:
+                    run.bad('C16-R2', '%s/%s' % (label, short), '%s on a value derived from cache contents or arguments can panic in %s (%s): operand %s' % (short, body.name, t.get('span'), why),
+                            site='%s (%s)' % (body.name, t.get('span')), oracle='unwrap/expect/index only on environment values (reviewed) or behind a dominating presence test')
+    run.require('C16-R2', 'bodies scanned for panic sites', bodies, 400)
+    run.require('C16-R2', 'reviewed environment sites', env, 4)
+    return n
